@@ -67,10 +67,10 @@ public:
   raw_bencode(value_type* src_data, size_type src_size) : raw_object(src_data, src_size) {}
 
   bool        is_empty() const      { return m_size == 0; }
-  bool        is_value() const      { return m_size >= 3 && m_data[0] >= 'i'; }
+  bool        is_value() const      { return m_size >= 3 && m_data[0] == 'i'; }
   bool        is_raw_string() const { return m_size >= 2 && m_data[0] >= '0' && m_data[0] <= '9'; }
-  bool        is_raw_list() const   { return m_size >= 2 && m_data[0] >= 'l'; }
-  bool        is_raw_map() const    { return m_size >= 2 && m_data[0] >= 'd'; }
+  bool        is_raw_list() const   { return m_size >= 2 && m_data[0] == 'l'; }
+  bool        is_raw_map() const    { return m_size >= 2 && m_data[0] == 'd'; }
 
   std::string as_value_string() const;
   raw_string  as_raw_string() const;
